@@ -182,6 +182,10 @@ def rule_dict(regex, op, cfg_name, algo):
   if d is None:
     d = CONFIGS['default']
   out = {'regex': regex, 'operation': op, 'algorithm_key': algo, 'op_config': _strip(d)}
+  if algo == NOQ and cfg_name == 'none':
+    # hand-written style (as in recipes/sample_advanced_usage_recipe.json): a no_quantize entry
+    # that carries no op_config at all
+    del out['op_config']
   return out
 
 
